@@ -102,8 +102,8 @@ func (p *c01) Run(c fw.Case, r *fw.Rec) {
 		}
 	}
 	pairWorker(p.Env, p.Id, c, r, pairBuild{
-		Ref: map[string]string{"main.go": src},
-		XGo: map[string]string{"main.xgo": src},
+		Ref:  map[string]string{"main.go": src},
+		XGo:  map[string]string{"main.xgo": src},
 		Info: info,
 	})
 }
